@@ -269,7 +269,7 @@ def run_impl(c):
                 obs["coq"] = f"({inp}, OCrash {r} {c_otree(final_tree)} {surv})"
         except HarnessError:
             pass
-    if c["entry"] in ("write_dicts", "nx_dicts") and "nnames" in c and tree_printable(pre_tree) and tree_printable(final_tree):
+    if c["entry"] in ("write_dicts", "nx_dicts") and tree_printable(pre_tree) and tree_printable(final_tree):
         # tied to the Dicts model: the node / edge dictionaries themselves are the input (no captured arrays)
         try:
             from harness import c03
@@ -279,7 +279,7 @@ def run_impl(c):
 
                 md = GeffMetadata(directed=c["directed"], node_props_metadata={}, edge_props_metadata={})
                 dg = c03.c_dgraph([(i, d) for i, d in c["nodes"]], [(tuple(e), d) for e, d in c["edges"]], it)
-                inp = (f"IDictsCrash KObj {c_otree(pre_tree)} {dg} {clist(c['nnames'], cstr)} {clist(c['enames'], cstr)} "
+                inp = (f"IDictsCrash KObj {c_otree(pre_tree)} {dg} {clist(c.get('nnames', ['t', 's']), cstr)} {clist(c.get('enames', ['w']), cstr)} "
                        f"{c_meta(abstract_meta_obj(md, it))}")
             else:
                 import networkx as nx
